@@ -1158,10 +1158,19 @@ Proof.
   apply andb_prop in Hs. destruct Hs as [Hmc Hs]. apply Z.eqb_eq in Hs. destruct Hm as [Hm | Hm]; [congruence | tauto].
 Qed.
 
-Theorem announce_decodes mc ext s r body :
+Lemma nh_wire_fits v4m ext n nh : nh_fits ext n nh -> nh_wire v4m (n_afi n) nh = nh.
+Proof.
+  intro F. unfold nh_wire. destruct v4m; [|reflexivity]. cbn [andb].
+  destruct F as [[L A] | [L A]].
+  - rewrite A. reflexivity.
+  - assert (E : (length nh =? 4)%nat = false) by (apply Nat.eqb_neq; unfold zlen in L; lia).
+    rewrite E, andb_false_r. reflexivity.
+Qed.
+
+Theorem announce_decodes mc v4m ext s r body :
   wf_route ext s r ->
   (mc = false \/ ~ (n_afi (r_nlri r) = 1 /\ n_safi (r_nlri r) = 2)) ->
-  encode_announce mc s r = Some body ->
+  encode_announce mc v4m s r = Some body ->
   exists u, ref_decode (rs_of s ext) body = Some u
     /\ u_withdrawn u = []
     /\ u_announced u = [((n_afi (r_nlri r), n_safi (r_nlri r)), sem_nlri (send_pid s (r_nlri r)) false (r_nlri r),
@@ -1171,6 +1180,7 @@ Proof.
   intros [Wn Wi Wno Wd Wm Wnh Ws] Hmc Henc.
   unfold encode_announce in Henc. unfold items_of in Henc.
   set (n := r_nlri r) in *. set (nh := resolve s (n_afi n) (r_nh r)) in *.
+  rewrite (nh_wire_fits v4m ext n nh Wnh) in Henc.
   destruct (attrs_decode s ext nh (r_items r) Wi Wno Wd Ws) as [Eattr [Tok [Tint [Rno [Rperm [Rmp Rnh]]]]]].
   set (its := sent_items s (INextHop nh :: r_items r)) in *.
   set (tls := flat_map (item_tls s) its) in *. set (ras := flat_map (item_ras s) its) in *.
@@ -1373,7 +1383,7 @@ Proof.
 Qed.
 
 Lemma multicast_refuted :
-  exists body u, encode_announce true mc_sess mc_route = Some body
+  exists body u, encode_announce true false mc_sess mc_route = Some body
     /\ ref_decode (rs_of mc_sess (fun _ _ => false)) body = Some u
     /\ map (fun a => fst (fst a)) (u_announced u) = [(1, 1)]
     /\ (n_afi (r_nlri mc_route), n_safi (r_nlri mc_route)) = (1, 2).
@@ -1387,7 +1397,7 @@ Definition ex_route : route :=
 
 Lemma ex_route_ok :
   wf_route (fun _ _ => false) ex_sess ex_route
-  /\ exists body, encode_announce false ex_sess ex_route = Some body /\ zlen body = 98.
+  /\ exists body, encode_announce false false ex_sess ex_route = Some body /\ zlen body = 98.
 Proof.
   split.
   - constructor.
@@ -1426,10 +1436,10 @@ Definition expected_attrs (s : sess) (given : list item) : list sattr :=
 Lemma expected_attrs_eq s given : expected_attrs s given = flat_map sem_item (expected_items s given).
 Proof. reflexivity. Qed.
 
-Theorem announce_decodes' mc ext s r body :
+Theorem announce_decodes' mc v4m ext s r body :
   wf_route ext s r ->
   (mc = false \/ ~ (n_afi (r_nlri r) = 1 /\ n_safi (r_nlri r) = 2)) ->
-  encode_announce mc s r = Some body ->
+  encode_announce mc v4m s r = Some body ->
   exists u, ref_decode (rs_of s ext) body = Some u
     /\ u_withdrawn u = []
     /\ u_announced u = [((n_afi (r_nlri r), n_safi (r_nlri r)), sem_nlri (send_pid s (r_nlri r)) false (r_nlri r),
